@@ -1196,9 +1196,18 @@ Lemma frag_done_guard_needed :
                 cl_done_g true c2 = Ok None /\ cl_done_g false c2 = Panic.
 Proof. cbv zeta. eexists. eexists. repeat split; vm_compute; reflexivity. Qed.
 
+Definition clob_ok (clob : nat -> list Z -> list Z) : Prop :=
+  forall k r, bytes_ok r = true -> bytes_ok (clob k r) = true /\ len (clob k r) = len r.
+Lemma no_clob_ok : clob_ok no_clob.
+Proof. intros k r H. split; [exact H | reflexivity]. Qed.
+
+Section Clobber.
+Variable clob : nat -> list Z -> list Z.
+Hypothesis Hclob : clob_ok clob.
+
 (* a Packet that is neither a container nor a fragment is finished in one step *)
 Lemma recv_b_plain f self st q : plain q ->
-  recv_b (S f) self st q = ret st \/ recv_b (S f) self st q = lift (Err EOther).
+  recv_b clob (S f) self st q = ret st \/ recv_b clob (S f) self st q = lift (Err EOther).
 Proof.
   intros [H1 H0]. cbn [recv_b].
   destruct (_ && _ && _); [left; reflexivity|]. destruct (_ && _); [right; reflexivity|].
@@ -1208,11 +1217,11 @@ Qed.
 
 Lemma recv_unpack_spec fuel :
   (forall self st p, st_wf st -> bytes_ok (p_body p) = true ->
-     np (recv_b fuel self st p) /\ alloc (recv_b fuel self st p) <= 2 * len (p_body p) + slack (recv_b fuel self st p) /\
-     (forall st', outcome (recv_b fuel self st p) = Ok st' -> st_wf st')) /\
+     np (recv_b clob fuel self st p) /\ alloc (recv_b clob fuel self st p) <= 2 * len (p_body p) + slack (recv_b clob fuel self st p) /\
+     (forall st', outcome (recv_b clob fuel self st p) = Ok st' -> st_wf st')) /\
   (forall self st x body, st_wf st -> bytes_ok body = true ->
-     np (unpack_b fuel self st x body) /\ alloc (unpack_b fuel self st x body) <= 2 * len body + slack (unpack_b fuel self st x body) /\
-     (forall st', outcome (unpack_b fuel self st x body) = Ok st' -> st_wf st')).
+     np (unpack_b clob fuel self st x body) /\ alloc (unpack_b clob fuel self st x body) <= 2 * len body + slack (unpack_b clob fuel self st x body) /\
+     (forall st', outcome (unpack_b clob fuel self st x body) = Ok st' -> st_wf st')).
 Proof.
   assert (Rret : forall st B, st_wf st -> 0 <= B ->
             np (ret st) /\ alloc (ret st) <= B + slack (ret st) /\ (forall st', outcome (ret st) = Ok st' -> st_wf st')).
@@ -1241,7 +1250,7 @@ Proof.
       assert (Hgo : forall c, cl_wf c ->
         let a := match cl_add c p with
                  | Ok c' => match cl_done c' with
-                            | Ok (Some v) => recv_b f self (f_remove (fl_group (p_flags p)) st) v
+                            | Ok (Some v) => recv_b clob f self (f_remove (fl_group (p_flags p)) st) v
                             | Ok None => ret ((fl_group (p_flags p), c') :: f_remove (fl_group (p_flags p)) st)
                             | Err e => lift (Err e)
                             | Panic => lift Panic
@@ -1270,8 +1279,9 @@ Proof.
       * destruct (packet_stream_cost body v r Hb Ep) as (C1 & C2 & C3 & _).
         rewrite (abind_ok _ _ _ Ep).
         destruct (IHr self st v Hw C2) as (R1 & R2 & R3).
-        destruct (outcome (recv_b f self st v)) as [st'|e|] eqn:Er.
-        -- rewrite (abind_ok _ _ _ Er). destruct (IHu self st' (x - 1) r (R3 st' eq_refl) C3) as (U1 & U2 & U3).
+        destruct (outcome (recv_b clob f self st v)) as [st'|e|] eqn:Er.
+        -- rewrite (abind_ok _ _ _ Er). destruct (Hclob f r C3) as [C3' L3].
+           destruct (IHu self st' (x - 1) (clob f r) (R3 st' eq_refl) C3') as (U1 & U2 & U3). rewrite L3 in U2.
            unfold slack in *. rewrite Er in R2. unfold np, outcome, alloc in *. cbn [fst snd].
            split; [exact U1|]. pose proof (len_nonneg (p_body v)). pose proof (len_nonneg r). split; [lia | exact U3].
         -- rewrite (abind_err _ _ _ Er). unfold slack in *. rewrite Er in R2. unfold np, outcome, alloc in *. cbn [fst snd].
@@ -1282,18 +1292,18 @@ Proof.
 Qed.
 
 Theorem receive_bytes_spec self s : bytes_ok s = true ->
-  np (receive_bytes self s) /\ alloc (receive_bytes self s) <= 2 * len s + 2 * TagsMax.
+  np (receive_bytes_c clob self s) /\ alloc (receive_bytes_c clob self s) <= 2 * len s + 2 * TagsMax.
 Proof.
-  intros Hs. unfold receive_bytes. pose proof (len_nonneg s).
+  intros Hs. unfold receive_bytes_c. pose proof (len_nonneg s).
   destruct (packet_stream_spec s Hs) as [P1 P2].
   destruct (outcome (packet_stream s)) as [[p r]|e|] eqn:Ep.
   - destruct (packet_stream_cost s p r Hs Ep) as (C1 & C2 & C3 & _). rewrite (abind_ok _ _ _ Ep).
     destruct (proj1 (recv_unpack_spec (recv_fuel p)) self [] p st_wf_nil C2) as (R1 & R2 & _).
-    pose proof (slack_nonneg (recv_b (recv_fuel p) self [] p)) as Hs0.
-    assert (Hsl : slack (recv_b (recv_fuel p) self [] p) <= TagsMax).
-    { unfold slack. generalize (outcome (recv_b (recv_fuel p) self [] p)). intros o. destruct o; unfold TagsMax; lia. }
+    pose proof (slack_nonneg (recv_b clob (recv_fuel p) self [] p)) as Hs0.
+    assert (Hsl : slack (recv_b clob (recv_fuel p) self [] p) <= TagsMax).
+    { unfold slack. generalize (outcome (recv_b clob (recv_fuel p) self [] p)). intros o. destruct o; unfold TagsMax; lia. }
     pose proof (len_nonneg r). pose proof (len_nonneg (p_body p)).
-    destruct (outcome (recv_b (recv_fuel p) self [] p)) as [st|e|] eqn:Er.
+    destruct (outcome (recv_b clob (recv_fuel p) self [] p)) as [st|e|] eqn:Er.
     + rewrite (abind_ok _ _ _ Er). unfold np, outcome, alloc in *. cbn [fst snd ret]. split; [discriminate|]. unfold TagsMax in *. lia.
     + rewrite (abind_err _ _ _ Er). unfold np, outcome, alloc in *. cbn [fst snd]. split; [discriminate|]. unfold TagsMax in *. lia.
     + exfalso. apply R1. exact Er.
@@ -1304,19 +1314,19 @@ Qed.
 (* ---- ALL sequences of Packets handed to one Session: any flags, positions, lengths, group
    ids, empty or not, duplicates, in any order ---- *)
 Theorem recv_packets_no_panic self : forall ps st, st_wf st ->
-  Forall (fun p => bytes_ok (p_body p) = true) ps -> np (recv_packets self st ps).
+  Forall (fun p => bytes_ok (p_body p) = true) ps -> np (recv_packets clob self st ps).
 Proof.
   induction ps as [|p ps IH]; intros st Hw Hb; cbn [recv_packets]; [discriminate|].
   inversion Hb; subst.
   destruct (proj1 (recv_unpack_spec (recv_fuel p)) self st p Hw H1) as (R1 & _ & R3). unfold np.
-  destruct (outcome (recv_b (recv_fuel p) self st p)) as [st'|e|] eqn:Er.
+  destruct (outcome (recv_b clob (recv_fuel p) self st p)) as [st'|e|] eqn:Er.
   - rewrite (abind_ok _ _ _ Er). cbn [outcome fst]. apply IH; [apply R3; reflexivity | assumption].
   - rewrite (abind_err _ _ _ Er). discriminate.
   - exfalso. apply R1. exact Er.
 Qed.
 
 Lemma recv_stream_spec fuel : forall self st s, st_wf st -> bytes_ok s = true ->
-  np (recv_stream fuel self st s) /\ alloc (recv_stream fuel self st s) <= 2 * len s + slack (recv_stream fuel self st s).
+  np (recv_stream clob fuel self st s) /\ alloc (recv_stream clob fuel self st s) <= 2 * len s + slack (recv_stream clob fuel self st s).
 Proof.
   induction fuel as [|f IH]; intros self st s Hw Hb; cbn [recv_stream]; pose proof (len_nonneg s).
   - apply slack_lift; [discriminate | lia].
@@ -1325,7 +1335,7 @@ Proof.
     destruct (outcome (packet_stream s)) as [[v r]|e|] eqn:Ep.
     + destruct (packet_stream_cost s v r Hb Ep) as (C1 & C2 & C3 & _). rewrite (abind_ok _ _ _ Ep).
       destruct (proj1 (recv_unpack_spec (recv_fuel v)) self st v Hw C2) as (R1 & R2 & R3).
-      destruct (outcome (recv_b (recv_fuel v) self st v)) as [st'|e|] eqn:Er.
+      destruct (outcome (recv_b clob (recv_fuel v) self st v)) as [st'|e|] eqn:Er.
       * rewrite (abind_ok _ _ _ Er). destruct (IH self st' r (R3 st' eq_refl) C3) as [U1 U2].
         unfold slack in *. rewrite Er in R2. unfold np, outcome, alloc in *. cbn [fst snd].
         split; [exact U1|]. pose proof (len_nonneg (p_body v)). pose proof (len_nonneg r). lia.
@@ -1337,18 +1347,20 @@ Proof.
 Qed.
 
 Theorem receive_seq_spec self s : bytes_ok s = true ->
-  np (receive_seq self s) /\ alloc (receive_seq self s) <= 2 * len s + TagsMax.
+  np (receive_seq_c clob self s) /\ alloc (receive_seq_c clob self s) <= 2 * len s + TagsMax.
 Proof.
-  intros Hs. unfold receive_seq. pose proof (len_nonneg s).
+  intros Hs. unfold receive_seq_c. pose proof (len_nonneg s).
   destruct (recv_stream_spec (S (length s)) self [] s st_wf_nil Hs) as [R1 R2].
-  assert (Hsl : slack (recv_stream (S (length s)) self [] s) <= TagsMax).
-  { unfold slack. generalize (outcome (recv_stream (S (length s)) self [] s)). intros o. destruct o; unfold TagsMax; lia. }
-  destruct (outcome (recv_stream (S (length s)) self [] s)) as [st|e|] eqn:Er.
+  assert (Hsl : slack (recv_stream clob (S (length s)) self [] s) <= TagsMax).
+  { unfold slack. generalize (outcome (recv_stream clob (S (length s)) self [] s)). intros o. destruct o; unfold TagsMax; lia. }
+  destruct (outcome (recv_stream clob (S (length s)) self [] s)) as [st|e|] eqn:Er.
   - rewrite (abind_ok _ _ _ Er). unfold np, outcome, alloc in *. cbn [fst snd ret]. split; [discriminate|]. lia.
   - rewrite (abind_err _ _ _ Er). unfold np, outcome, alloc in *. cbn [fst snd]. split; [discriminate|]. lia.
   - exfalso. apply R1. exact Er.
 Qed.
 
+
+End Clobber.
 
 (* ===================================================================================
    10. the fuel of the model loops is never exhausted (EFuel is unreachable): this is the
@@ -1554,6 +1566,10 @@ Proof.
   apply anofuel_lift_bind; [apply rd_bytes_nf|]. intros [? ?] _. discriminate.
 Qed.
 
+Section ClobberFuel.
+Variable clob : nat -> list Z -> list Z.
+Hypothesis Hclob : clob_ok clob.
+
 Lemma cl_add_nf c p : nofuel (cl_add c p).
 Proof.
   unfold nofuel, cl_add. destruct (match c_data c with d0 :: _ => negb (belongs d0 p) | [] => false end); [discriminate|].
@@ -1561,8 +1577,8 @@ Proof.
 Qed.
 
 Lemma recv_unpack_fuel fuel :
-  (forall self st p, st_wf st -> bytes_ok (p_body p) = true -> (length (p_body p) + 2 < fuel)%nat -> anofuel (recv_b fuel self st p)) /\
-  (forall self st x body, st_wf st -> bytes_ok body = true -> (length body < fuel)%nat -> anofuel (unpack_b fuel self st x body)).
+  (forall self st p, st_wf st -> bytes_ok (p_body p) = true -> (length (p_body p) + 2 < fuel)%nat -> anofuel (recv_b clob fuel self st p)) /\
+  (forall self st x body, st_wf st -> bytes_ok body = true -> (length body < fuel)%nat -> anofuel (unpack_b clob fuel self st x body)).
 Proof.
   induction fuel as [|f [IHr IHu]]; [split; intros; lia|]. split.
   - intros self st p Hw Hb Hf. cbn [recv_b]. unfold anofuel.
@@ -1573,15 +1589,15 @@ Proof.
     destruct (fl_bit 0 (p_flags p)) eqn:E0; [|discriminate].
     destruct (_ || _); [discriminate|]. destruct (fl_len (p_flags p) =? 0); [discriminate|].
     destruct f as [|f']; [lia|].
-    assert (Hpl : forall st0 q, plain q -> outcome (recv_b (S f') self st0 q) <> Err EFuel).
-    { intros st0 q Hq. destruct (recv_b_plain f' self st0 q Hq) as [-> | ->]; discriminate. }
+    assert (Hpl : forall st0 q, plain q -> outcome (recv_b clob (S f') self st0 q) <> Err EFuel).
+    { intros st0 q Hq. destruct (recv_b_plain clob f' self st0 q Hq) as [-> | ->]; discriminate. }
     destruct (fl_len (p_flags p) =? 1).
     { apply Hpl. destruct (fl_clear_bits _ E1 E0) as [B1 B0]. split; cbn [with_flags p_flags]; assumption. }
     assert (Hm : member_ok p) by (split; assumption).
     assert (Hgo : forall c, cl_wf c ->
       outcome (match cl_add c p with
                | Ok c' => match cl_done c' with
-                          | Ok (Some v) => recv_b (S f') self (f_remove (fl_group (p_flags p)) st) v
+                          | Ok (Some v) => recv_b clob (S f') self (f_remove (fl_group (p_flags p)) st) v
                           | Ok None => ret ((fl_group (p_flags p), c') :: f_remove (fl_group (p_flags p)) st)
                           | Err e => lift (Err e)
                           | Panic => lift Panic
@@ -1602,27 +1618,28 @@ Proof.
     destruct (outcome (packet_stream body)) as [[v r]|e|] eqn:Ep.
     + destruct (packet_stream_cost body v r Hb Ep) as (_ & C2 & C3 & C4). rewrite (abind_ok _ _ _ Ep). cbn [outcome fst].
       pose proof (len_nonneg r). pose proof (len_nonneg (p_body v)). unfold len in *.
-      assert (Hr : anofuel (recv_b f self st v)) by (apply IHr; [exact Hw | exact C2 | lia]).
-      destruct (proj1 (recv_unpack_spec f) self st v Hw C2) as (_ & _ & R3).
-      destruct (outcome (recv_b f self st v)) as [st'|e|] eqn:Er.
-      * rewrite (abind_ok _ _ _ Er). cbn [fst]. apply IHu; [apply R3; reflexivity | exact C3 | lia].
+      assert (Hr : anofuel (recv_b clob f self st v)) by (apply IHr; [exact Hw | exact C2 | lia]).
+      destruct (proj1 (recv_unpack_spec clob Hclob f) self st v Hw C2) as (_ & _ & R3).
+      destruct (outcome (recv_b clob f self st v)) as [st'|e|] eqn:Er.
+      * rewrite (abind_ok _ _ _ Er). cbn [fst]. destruct (Hclob f r C3) as [C3' L3]. unfold len in L3.
+        apply IHu; [apply R3; reflexivity | exact C3' | lia].
       * rewrite (abind_err _ _ _ Er). cbn. unfold anofuel in Hr. rewrite Er in Hr. exact Hr.
       * rewrite (abind_panic _ _ Er). discriminate.
     + rewrite (abind_err _ _ _ Ep). cbn. unfold anofuel in Hp. rewrite Ep in Hp. intros E. apply Hp. inversion E; reflexivity.
     + exfalso. apply P1. exact Ep.
 Qed.
 
-Lemma recv_fuel_ok self st p : st_wf st -> bytes_ok (p_body p) = true -> anofuel (recv_b (recv_fuel p) self st p).
+Lemma recv_fuel_ok self st p : st_wf st -> bytes_ok (p_body p) = true -> anofuel (recv_b clob (recv_fuel p) self st p).
 Proof. intros Hw Hb. apply (proj1 (recv_unpack_fuel _)); [exact Hw | exact Hb | unfold recv_fuel; lia]. Qed.
 
-Theorem receive_bytes_fuel self s : bytes_ok s = true -> outcome (receive_bytes self s) <> Err EFuel.
+Theorem receive_bytes_fuel self s : bytes_ok s = true -> outcome (receive_bytes_c clob self s) <> Err EFuel.
 Proof.
-  intros Hs. unfold receive_bytes.
+  intros Hs. unfold receive_bytes_c.
   pose proof (packet_stream_fuel s) as Hp. destruct (packet_stream_spec s Hs) as [P1 _].
   destruct (outcome (packet_stream s)) as [[p r]|e|] eqn:Ep.
   - destruct (packet_stream_cost s p r Hs Ep) as (_ & C2 & _ & C4). rewrite (abind_ok _ _ _ Ep). cbn [outcome fst].
     pose proof (recv_fuel_ok self [] p st_wf_nil C2) as Hr. unfold anofuel in Hr.
-    destruct (outcome (recv_b (recv_fuel p) self [] p)) as [st|e|] eqn:Er.
+    destruct (outcome (recv_b clob (recv_fuel p) self [] p)) as [st|e|] eqn:Er.
     + rewrite (abind_ok _ _ _ Er). discriminate.
     + rewrite (abind_err _ _ _ Er). cbn. intros E. apply Hr. inversion E; reflexivity.
     + rewrite (abind_panic _ _ Er). discriminate.
@@ -1631,19 +1648,19 @@ Proof.
 Qed.
 
 Theorem recv_packets_fuel self : forall ps st, st_wf st ->
-  Forall (fun p => bytes_ok (p_body p) = true) ps -> outcome (recv_packets self st ps) <> Err EFuel.
+  Forall (fun p => bytes_ok (p_body p) = true) ps -> outcome (recv_packets clob self st ps) <> Err EFuel.
 Proof.
   induction ps as [|p ps IH]; intros st Hw Hb; cbn [recv_packets]; [discriminate|].
   inversion Hb; subst. pose proof (recv_fuel_ok self st p Hw H1) as Hr. unfold anofuel in Hr.
-  destruct (proj1 (recv_unpack_spec (recv_fuel p)) self st p Hw H1) as (_ & _ & R3).
-  destruct (outcome (recv_b (recv_fuel p) self st p)) as [st'|e|] eqn:Er.
+  destruct (proj1 (recv_unpack_spec clob Hclob (recv_fuel p)) self st p Hw H1) as (_ & _ & R3).
+  destruct (outcome (recv_b clob (recv_fuel p) self st p)) as [st'|e|] eqn:Er.
   - rewrite (abind_ok _ _ _ Er). cbn [outcome fst]. apply IH; [apply R3; reflexivity | assumption].
   - rewrite (abind_err _ _ _ Er). cbn. exact Hr.
   - rewrite (abind_panic _ _ Er). discriminate.
 Qed.
 
 Lemma recv_stream_fuel fuel : forall self st s, st_wf st -> bytes_ok s = true -> (length s < fuel)%nat ->
-  anofuel (recv_stream fuel self st s).
+  anofuel (recv_stream clob fuel self st s).
 Proof.
   induction fuel as [|f IH]; intros self st s Hw Hb Hf; [lia|]. cbn [recv_stream]. unfold anofuel.
   destruct (is_nil s); [discriminate|].
@@ -1651,9 +1668,9 @@ Proof.
   destruct (outcome (packet_stream s)) as [[v r]|e|] eqn:Ep.
   - destruct (packet_stream_cost s v r Hb Ep) as (_ & C2 & C3 & C4). rewrite (abind_ok _ _ _ Ep). cbn [outcome fst].
     pose proof (recv_fuel_ok self st v Hw C2) as Hr. unfold anofuel in Hr.
-    destruct (proj1 (recv_unpack_spec (recv_fuel v)) self st v Hw C2) as (_ & _ & R3).
+    destruct (proj1 (recv_unpack_spec clob Hclob (recv_fuel v)) self st v Hw C2) as (_ & _ & R3).
     pose proof (len_nonneg r). pose proof (len_nonneg (p_body v)). unfold len in *.
-    destruct (outcome (recv_b (recv_fuel v) self st v)) as [st'|e|] eqn:Er.
+    destruct (outcome (recv_b clob (recv_fuel v) self st v)) as [st'|e|] eqn:Er.
     + rewrite (abind_ok _ _ _ Er). cbn [fst]. apply IH; [apply R3; reflexivity | exact C3 | lia].
     + rewrite (abind_err _ _ _ Er). cbn. exact Hr.
     + rewrite (abind_panic _ _ Er). discriminate.
@@ -1661,16 +1678,18 @@ Proof.
   - exfalso. apply P1. exact Ep.
 Qed.
 
-Theorem receive_seq_fuel self s : bytes_ok s = true -> outcome (receive_seq self s) <> Err EFuel.
+Theorem receive_seq_fuel self s : bytes_ok s = true -> outcome (receive_seq_c clob self s) <> Err EFuel.
 Proof.
-  intros Hs. unfold receive_seq.
+  intros Hs. unfold receive_seq_c.
   pose proof (recv_stream_fuel (S (length s)) self [] s st_wf_nil Hs ltac:(lia)) as Hr. unfold anofuel in Hr.
-  destruct (outcome (recv_stream (S (length s)) self [] s)) as [st|e|] eqn:Er.
+  destruct (outcome (recv_stream clob (S (length s)) self [] s)) as [st|e|] eqn:Er.
   - rewrite (abind_ok _ _ _ Er). discriminate.
   - rewrite (abind_err _ _ _ Er). cbn. intros E. apply Hr. inversion E; reflexivity.
   - rewrite (abind_panic _ _ Er). discriminate.
 Qed.
 
+
+End ClobberFuel.
 
 (* ===================================================================================
    11. Session.JSON: the text is one JSON value followed by nothing, whatever the leaves are,
